@@ -300,7 +300,7 @@ func (c *FailoverController) ForceFailover(reason string) error {
 		c.wg.Add(1)
 		go func() {
 			defer c.wg.Done()
-			c.executeFailover(reason)
+			c.executeFailover(reason, nil)
 		}()
 	}
 	return nil
@@ -350,9 +350,14 @@ func (c *FailoverController) handleHealthEvent(event HealthEvent) {
 			if c.failoverTimer != nil {
 				c.failoverTimer.Stop()
 			}
-			c.failoverTimer = time.AfterFunc(c.config.FailoverDelay, func() {
-				c.executeFailover("partner health check failure")
+			// The function learns which timer runs it: if it loses the lock to a
+			// cancellation (and possibly a new partner-down) it must not act on
+			// the state left for a later episode.
+			var timer *time.Timer
+			timer = time.AfterFunc(c.config.FailoverDelay, func() {
+				c.executeFailover("partner health check failure", timer)
 			})
+			c.failoverTimer = timer
 		}
 
 	case HealthEventPartnerUp:
@@ -361,7 +366,10 @@ func (c *FailoverController) handleHealthEvent(event HealthEvent) {
 			// Cancel pending failover
 			c.logger.Info("Partner recovered, canceling pending failover")
 			if c.failoverTimer != nil {
+				// Stop may come too late (the function already waits for the lock);
+				// forgetting the timer makes that function a no-op.
 				c.failoverTimer.Stop()
+				c.failoverTimer = nil
 			}
 			c.state = FailoverStateNormal
 			atomic.AddUint64(&c.failoversCanceled, 1)
@@ -450,11 +458,17 @@ func (c *FailoverController) initiateFailover(reason string) (bool, error) {
 	return run, nil
 }
 
-// executeFailover performs the actual failover.
-func (c *FailoverController) executeFailover(reason string) {
+// executeFailover performs the actual failover. armedBy is the failover timer
+// whose function is calling (nil for a forced failover): a timer that was
+// canceled or replaced after it fired must not run the transition.
+func (c *FailoverController) executeFailover(reason string, armedBy *time.Timer) {
 	c.mu.Lock()
 
 	if c.state != FailoverStatePending && c.state != FailoverStateInProgress {
+		c.mu.Unlock()
+		return
+	}
+	if armedBy != nil && armedBy != c.failoverTimer {
 		c.mu.Unlock()
 		return
 	}
